@@ -34,7 +34,7 @@ func TestBatches(t *testing.T) {
 	if rt.Thorough() {
 		maxLen = 20
 	}
-	rt.Check(t, 300, 20000, func(t *rapid.T) {
+	rt.Check(t, 180, 12000, func(t *rapid.T) {
 		defer rt.Entropy(gen.Seed().Draw(t, "entropy"))()
 		// ---- issuer configuration (truncated-id collisions are outside the property's domain: see DESIGN.md)
 		n1 := rapid.IntRange(0, 2).Draw(t, "type1Issuers")
@@ -93,221 +93,225 @@ func TestBatches(t *testing.T) {
 		}
 		bi := batched.NewBasicBatchedIssuer(all...)
 
-		// ---- batch
-		kinds := []string{"t1-known", "t1-unknown", "t1-malformed", "t2-known", "t2-unknown", "t2-malformed"}
-		n := gen.UniformRange(t, 1, maxLen, "batchLen")
-		var items []item
-		for i := 0; i < n; i++ {
-			kind := gen.Pick(t, kinds, "kind")
-			it := item{kind: kind}
-			switch kind {
-			case "t1-known", "t1-malformed":
-				key := unknown1
-				if len(keys1) > 0 {
-					key = gen.Pick(t, keys1, "key1")
-				} else {
-					it.kind = strings.Replace(kind, "t1-", "t1-nosuchtype-", 1)
-				}
-				sess, err := gen.NewSession(t, 1, gen.SessionOpts{OKey: key})
-				if err != nil {
-					t.Fatalf("harness: %v", err)
-				}
-				r := sess.State1.Request()
-				if kind == "t1-malformed" {
-					bad := append([]byte{}, r.BlindedReq...)
-					switch gen.Uniform(t, 3, "badkind") {
-					case 0:
-						bad[0] = 0x05 // no such point format
-					case 1:
-						for i := 1; i < len(bad); i++ {
-							bad[i] = 0xff // x >= p
-						}
-					case 2:
-						bad = make([]byte, 49) // identity / all-zero encoding
+		// several batches are evaluated by the SAME batch issuer object, one after the other
+		nBatches := gen.UniformRange(t, 1, 3, "batches")
+		for batchNo := 0; batchNo < nBatches; batchNo++ {
+			// ---- batch
+			kinds := []string{"t1-known", "t1-unknown", "t1-malformed", "t2-known", "t2-unknown", "t2-malformed"}
+			n := gen.UniformRange(t, 1, maxLen, "batchLen")
+			var items []item
+			for i := 0; i < n; i++ {
+				kind := gen.Pick(t, kinds, "kind")
+				it := item{kind: kind}
+				switch kind {
+				case "t1-known", "t1-malformed":
+					key := unknown1
+					if len(keys1) > 0 {
+						key = gen.Pick(t, keys1, "key1")
+					} else {
+						it.kind = strings.Replace(kind, "t1-", "t1-nosuchtype-", 1)
 					}
-					r = &type1.BasicPrivateTokenRequest{TokenKeyID: r.TokenKeyID, BlindedReq: bad}
-					sess = nil
+					sess, err := gen.NewSession(t, 1, gen.SessionOpts{OKey: key})
+					if err != nil {
+						t.Fatalf("harness: %v", err)
+					}
+					r := sess.State1.Request()
+					if kind == "t1-malformed" {
+						bad := append([]byte{}, r.BlindedReq...)
+						switch gen.Uniform(t, 3, "badkind") {
+						case 0:
+							bad[0] = 0x05 // no such point format
+						case 1:
+							for i := 1; i < len(bad); i++ {
+								bad[i] = 0xff // x >= p
+							}
+						case 2:
+							bad = make([]byte, 49) // identity / all-zero encoding
+						}
+						r = &type1.BasicPrivateTokenRequest{TokenKeyID: r.TokenKeyID, BlindedReq: bad}
+						sess = nil
+					}
+					it.req, it.sess = r, sess
+				case "t1-unknown":
+					sess, err := gen.NewSession(t, 1, gen.SessionOpts{OKey: unknown1})
+					if err != nil {
+						t.Fatalf("harness: %v", err)
+					}
+					it.req = sess.State1.Request()
+				case "t2-known", "t2-malformed":
+					idx := unknown2
+					if len(rsaIdx) > 0 {
+						idx = gen.Pick(t, rsaIdx, "key2")
+					} else {
+						it.kind = strings.Replace(kind, "t2-", "t2-nosuchtype-", 1)
+					}
+					if idx < 0 {
+						idx = 0
+					}
+					sess, err := gen.NewSession(t, 2, gen.SessionOpts{RKeyIdx: idx})
+					if err != nil {
+						t.Fatalf("harness: %v", err)
+					}
+					r := sess.State2.Request()
+					if kind == "t2-malformed" {
+						r = &type2.BasicPublicTokenRequest{TokenKeyID: r.TokenKeyID, BlindedReq: bytes.Repeat([]byte{0xff}, 256)} // >= N
+						sess = nil
+					}
+					it.req, it.sess = r, sess
+				case "t2-unknown":
+					if unknown2 < 0 {
+						continue
+					}
+					sess, err := gen.NewSession(t, 2, gen.SessionOpts{RKeyIdx: unknown2})
+					if err != nil {
+						t.Fatalf("harness: %v", err)
+					}
+					it.req = sess.State2.Request()
 				}
-				it.req, it.sess = r, sess
-			case "t1-unknown":
-				sess, err := gen.NewSession(t, 1, gen.SessionOpts{OKey: unknown1})
-				if err != nil {
-					t.Fatalf("harness: %v", err)
-				}
-				it.req = sess.State1.Request()
-			case "t2-known", "t2-malformed":
-				idx := unknown2
-				if len(rsaIdx) > 0 {
-					idx = gen.Pick(t, rsaIdx, "key2")
-				} else {
-					it.kind = strings.Replace(kind, "t2-", "t2-nosuchtype-", 1)
-				}
-				if idx < 0 {
-					idx = 0
-				}
-				sess, err := gen.NewSession(t, 2, gen.SessionOpts{RKeyIdx: idx})
-				if err != nil {
-					t.Fatalf("harness: %v", err)
-				}
-				r := sess.State2.Request()
-				if kind == "t2-malformed" {
-					r = &type2.BasicPublicTokenRequest{TokenKeyID: r.TokenKeyID, BlindedReq: bytes.Repeat([]byte{0xff}, 256)} // >= N
-					sess = nil
-				}
-				it.req, it.sess = r, sess
-			case "t2-unknown":
-				if unknown2 < 0 {
-					continue
-				}
-				sess, err := gen.NewSession(t, 2, gen.SessionOpts{RKeyIdx: unknown2})
-				if err != nil {
-					t.Fatalf("harness: %v", err)
-				}
-				it.req = sess.State2.Request()
+				items = append(items, it)
 			}
-			items = append(items, it)
-		}
-		if len(items) == 0 {
-			t.Skip("empty batch")
-		}
-		s.Eval()
-
-		// ---- model
-		expected := make([]bool, len(items))
-		for i, it := range items {
-			for _, is := range all {
-				if is.Type() != it.req.Type() || last(is.TokenKeyID()) != it.req.TruncatedTokenKeyID() {
-					continue
-				}
-				if _, err := is.Evaluate(it.req); err == nil {
-					expected[i] = true
-				}
-			}
-			if expected[i] && it.sess == nil {
-				t.Fatalf("harness: a malformed request evaluated successfully (%s)", it.kind)
-			}
-			s.Class(it.kind)
-		}
-		nGood, nBad := 0, 0
-		for _, e := range expected {
-			if e {
-				nGood++
-			} else {
-				nBad++
-			}
-		}
-
-		evaluate := func(list []item, wire bool) ([][]byte, string) {
-			reqs := make([]tokens.TokenRequestWithDetails, len(list))
-			for i, it := range list {
-				reqs[i] = it.req
-			}
-			br, err := batched.NewBasicClient().CreateTokenRequest(reqs)
-			if err != nil {
-				return nil, fmt.Sprintf("client CreateTokenRequest: %v", err)
-			}
-			if wire {
-				enc := append([]byte{}, br.Marshal()...)
-				br = new(batched.BatchedTokenRequest)
-				if !br.Unmarshal(enc) {
-					return nil, "batch request does not decode"
-				}
-			}
-			var respEnc []byte
-			var rerr error
-			if o := rt.GuardLite(func() { respEnc, rerr = bi.EvaluateBatch(br) }); o.Panic != nil {
-				return nil, fmt.Sprintf("EvaluateBatch panicked: %v", o.Panic)
-			}
-			if rerr != nil {
-				return nil, fmt.Sprintf("EvaluateBatch: %v", rerr)
-			}
-			var out [][]byte
-			var derr error
-			if o := rt.GuardLite(func() { out, derr = batched.UnmarshalBatchedTokenResponses(append([]byte{}, respEnc...)) }); o.Panic != nil {
-				return nil, fmt.Sprintf("response decoder panicked: %v (response %s)", o.Panic, rt.Hex(respEnc))
-			}
-			if derr != nil {
-				return nil, fmt.Sprintf("response list does not decode: %v (response %s)", derr, rt.Hex(respEnc))
-			}
-			return out, ""
-		}
-
-		wire := rapid.Bool().Draw(t, "wire")
-		if wire {
-			s.Class("path:wire")
-		} else {
-			s.Class("path:memory")
-		}
-		resps, msg := evaluate(items, wire)
-		mixed := ""
-		if nGood > 0 && nBad > 0 {
-			mixed = "/mixed"
-		} else if nBad > 0 {
-			mixed = "/allfail"
-		}
-		if msg != "" {
-			rt.Fail(t, "C05/response-undecodable"+mixed, "%s; batch %v expected %v", msg, kindsOf(items), expected)
-			return
-		}
-		if len(resps) != len(items) {
-			rt.Fail(t, "C05/count", "%d response entries for %d requests; batch %v", len(resps), len(items), kindsOf(items))
-			return
-		}
-		for i, it := range items {
-			present := len(resps[i]) > 0
-			if present != expected[i] {
-				rt.Fail(t, "C05/presence", "entry %d (%s) present=%v, model says %v; batch %v", i, it.kind, present, expected[i], kindsOf(items))
-				return
-			}
-			if !present {
+			if len(items) == 0 {
 				continue
 			}
-			toks, err := it.sess.Finalize(resps[i])
-			if err != nil {
-				rt.Fail(t, "C05/finalize", "entry %d (%s) does not finalize under its own request state: %v; batch %v", i, it.kind, err, kindsOf(items))
-				return
-			}
-			if err := it.sess.CheckTokens(toks); err != nil {
-				rt.Fail(t, "C05/token", "entry %d (%s): %v", i, it.kind, err)
-				return
-			}
-		}
-		// ---- metamorphic isolation: the good requests alone
-		if nGood > 0 && nBad > 0 {
-			var goodItems []item
-			var goodIdx []int
+			s.Eval()
+
+			// ---- model
+			expected := make([]bool, len(items))
 			for i, it := range items {
-				if expected[i] {
-					goodItems = append(goodItems, it)
-					goodIdx = append(goodIdx, i)
+				for _, is := range all {
+					if is.Type() != it.req.Type() || last(is.TokenKeyID()) != it.req.TruncatedTokenKeyID() {
+						continue
+					}
+					if _, err := is.Evaluate(it.req); err == nil {
+						expected[i] = true
+					}
+				}
+				if expected[i] && it.sess == nil {
+					t.Fatalf("harness: a malformed request evaluated successfully (%s)", it.kind)
+				}
+				s.Class(it.kind)
+			}
+			nGood, nBad := 0, 0
+			for _, e := range expected {
+				if e {
+					nGood++
+				} else {
+					nBad++
 				}
 			}
-			alone, msg := evaluate(goodItems, wire)
-			if msg != "" || len(alone) != len(goodItems) {
-				rt.Fail(t, "C05/isolation", "good requests alone: %s (%d entries)", msg, len(alone))
+
+			evaluate := func(list []item, wire bool) ([][]byte, string) {
+				reqs := make([]tokens.TokenRequestWithDetails, len(list))
+				for i, it := range list {
+					reqs[i] = it.req
+				}
+				br, err := batched.NewBasicClient().CreateTokenRequest(reqs)
+				if err != nil {
+					return nil, fmt.Sprintf("client CreateTokenRequest: %v", err)
+				}
+				if wire {
+					enc := append([]byte{}, br.Marshal()...)
+					br = new(batched.BatchedTokenRequest)
+					if !br.Unmarshal(enc) {
+						return nil, "batch request does not decode"
+					}
+				}
+				var respEnc []byte
+				var rerr error
+				if o := rt.GuardLite(func() { respEnc, rerr = bi.EvaluateBatch(br) }); o.Panic != nil {
+					return nil, fmt.Sprintf("EvaluateBatch panicked: %v", o.Panic)
+				}
+				if rerr != nil {
+					return nil, fmt.Sprintf("EvaluateBatch: %v", rerr)
+				}
+				var out [][]byte
+				var derr error
+				if o := rt.GuardLite(func() { out, derr = batched.UnmarshalBatchedTokenResponses(append([]byte{}, respEnc...)) }); o.Panic != nil {
+					return nil, fmt.Sprintf("response decoder panicked: %v (response %s)", o.Panic, rt.Hex(respEnc))
+				}
+				if derr != nil {
+					return nil, fmt.Sprintf("response list does not decode: %v (response %s)", derr, rt.Hex(respEnc))
+				}
+				return out, ""
+			}
+
+			wire := rapid.Bool().Draw(t, "wire")
+			if wire {
+				s.Class("path:wire")
+			} else {
+				s.Class("path:memory")
+			}
+			resps, msg := evaluate(items, wire)
+			mixed := ""
+			if nGood > 0 && nBad > 0 {
+				mixed = "/mixed"
+			} else if nBad > 0 {
+				mixed = "/allfail"
+			}
+			if msg != "" {
+				rt.Fail(t, "C05/response-undecodable"+mixed, "%s; batch %v expected %v", msg, kindsOf(items), expected)
 				return
 			}
-			for j, i := range goodIdx {
-				a, b := alone[j], resps[i]
-				det := len(b)
-				if items[i].req.Type() == 1 {
-					det = 49 // evaluated element; the DLEQ proof is randomised
+			if len(resps) != len(items) {
+				rt.Fail(t, "C05/count", "%d response entries for %d requests; batch %v", len(resps), len(items), kindsOf(items))
+				return
+			}
+			for i, it := range items {
+				present := len(resps[i]) > 0
+				if present != expected[i] {
+					rt.Fail(t, "C05/presence", "entry %d (%s) present=%v, model says %v; batch %v", i, it.kind, present, expected[i], kindsOf(items))
+					return
 				}
-				if len(a) != len(b) || !bytes.Equal(a[:det], b[:det]) {
-					rt.Fail(t, "C05/isolation", "entry %d differs between the mixed batch and the batch without failing requests", i)
+				if !present {
+					continue
+				}
+				toks, err := it.sess.Finalize(resps[i])
+				if err != nil {
+					rt.Fail(t, "C05/finalize", "entry %d (%s) does not finalize under its own request state: %v; batch %v", i, it.kind, err, kindsOf(items))
+					return
+				}
+				if err := it.sess.CheckTokens(toks); err != nil {
+					rt.Fail(t, "C05/token", "entry %d (%s): %v", i, it.kind, err)
 					return
 				}
 			}
-			req := make([]byte, 0)
-			for _, it := range items {
-				req = append(req, it.req.Marshal()...)
+			// ---- metamorphic isolation: the good requests alone
+			if nGood > 0 && nBad > 0 {
+				var goodItems []item
+				var goodIdx []int
+				for i, it := range items {
+					if expected[i] {
+						goodItems = append(goodItems, it)
+						goodIdx = append(goodIdx, i)
+					}
+				}
+				alone, msg := evaluate(goodItems, wire)
+				if msg != "" || len(alone) != len(goodItems) {
+					rt.Fail(t, "C05/isolation", "good requests alone: %s (%d entries)", msg, len(alone))
+					return
+				}
+				for j, i := range goodIdx {
+					a, b := alone[j], resps[i]
+					det := len(b)
+					if items[i].req.Type() == 1 {
+						det = 49 // evaluated element; the DLEQ proof is randomised
+					}
+					if len(a) != len(b) || !bytes.Equal(a[:det], b[:det]) {
+						rt.Fail(t, "C05/isolation", "entry %d differs between the mixed batch and the batch without failing requests", i)
+						return
+					}
+				}
+				req := make([]byte, 0)
+				for _, it := range items {
+					req = append(req, it.req.Marshal()...)
+				}
+				s.Nontrivial(req)
+				s.Class("mixed-batch")
 			}
-			s.Nontrivial(req)
-			s.Class("mixed-batch")
+			s.Sample(func() any {
+				return map[string]any{"batch": kindsOf(items), "expected_present": expected, "wire": wire, "batch_no": batchNo, "issuers": fmt.Sprintf("%d type-1, %d type-2", n1, n2)}
+			})
 		}
-		s.Sample(func() any {
-			return map[string]any{"batch": kindsOf(items), "expected_present": expected, "wire": wire, "issuers": fmt.Sprintf("%d type-1, %d type-2", n1, n2)}
-		})
 	})
 }
 
@@ -458,5 +462,103 @@ func TestTruncatedIDCollisions(t *testing.T) {
 			s.Nontrivial(reqBytes)
 		}
 		s.Sample(func() any { return map[string]any{"batch_len": n, "issuer_order": order} })
+	})
+}
+
+// TestLargeBatches: batch sizes whose request and response lists cross the 2-byte -> 4-byte varint boundary (16383 bytes).
+func TestLargeBatches(t *testing.T) {
+	s := rt.S("large-batches").SetRule("batches with 63, 64, 65 successful type-2 requests (259-byte entries: 16317 / 16576 / 16835 bytes), 110, 111, 112 successful type-1 requests (148-byte entries) and mixed batches of that size with a few failing requests inside, over the wire; same oracle (one entry per request in order, presence per model, present entries finalize). non-trivial = every batch; distinct by batch bytes")
+	// every 37th request fails, so e.g. 66 type-2 requests give 64 present entries (16576 bytes + 2 absent markers)
+	sizes := []struct{ n1, n2 int }{{0, 65}, {0, 66}, {0, 67}, {113, 0}, {114, 0}, {115, 0}, {60, 50}}
+	if rt.Thorough() {
+		sizes = append(sizes, []struct{ n1, n2 int }{{0, 127}, {0, 128}, {221, 0}, {222, 0}, {100, 100}}...)
+	}
+	rt.Check(t, 1, 6, func(t *rapid.T) {
+		defer rt.Entropy(gen.Seed().Draw(t, "entropy"))()
+		k1 := gen.OPRFKey(oprf.SuiteP384, gen.Seed().Draw(t, "keyseed"))
+		rsaIdx := gen.RSAKey().Draw(t, "rsakey")
+		i1, i2 := type1.NewBasicPrivateIssuer(k1), type2.NewBasicPublicIssuer(gen.RSAPool()[rsaIdx])
+		bi := batched.NewBasicBatchedIssuer(gen.Batch1{I: i1}, gen.Batch2{I: i2})
+		for si, sz := range sizes {
+			if !rt.Mine(si) {
+				continue
+			}
+			type it struct {
+				req  tokens.TokenRequestWithDetails
+				sess *gen.Session
+			}
+			var items []it
+			cl := gen.NewClients()
+			for i := 0; i < sz.n1+sz.n2; i++ {
+				typ := uint16(1)
+				if i >= sz.n1 {
+					typ = 2
+				}
+				sess, err := gen.NewSession(t, typ, gen.SessionOpts{OKey: k1, RKeyIdx: rsaIdx, Clients: cl})
+				if err != nil {
+					t.Fatalf("harness: %v", err)
+				}
+				var r tokens.TokenRequestWithDetails
+				if typ == 1 {
+					r = sess.State1.Request()
+				} else {
+					r = sess.State2.Request()
+				}
+				if i%37 == 5 { // a few failing requests inside the large batch
+					if typ == 1 {
+						r = &type1.BasicPrivateTokenRequest{TokenKeyID: sess.State1.Request().TokenKeyID, BlindedReq: make([]byte, 49)}
+					} else {
+						r = &type2.BasicPublicTokenRequest{TokenKeyID: sess.State2.Request().TokenKeyID ^ 0xFF, BlindedReq: sess.State2.Request().BlindedReq}
+					}
+					sess = nil
+				}
+				items = append(items, it{r, sess})
+			}
+			reqs := make([]tokens.TokenRequestWithDetails, len(items))
+			for i := range items {
+				reqs[i] = items[i].req
+			}
+			s.Eval()
+			s.Class(fmt.Sprintf("%d type-1 + %d type-2", sz.n1, sz.n2))
+			br, err := batched.NewBasicClient().CreateTokenRequest(reqs)
+			if err != nil {
+				rt.Fail(t, "C05/large/create", "CreateTokenRequest for %d requests: %v", len(reqs), err)
+				return
+			}
+			enc := append([]byte{}, br.Marshal()...)
+			s.Nontrivial(enc)
+			dec := new(batched.BatchedTokenRequest)
+			if !dec.Unmarshal(enc) {
+				rt.Fail(t, "C05/large/request-decode", "batch request of %d requests (%d bytes) does not decode", len(reqs), len(enc))
+				return
+			}
+			respEnc, err := bi.EvaluateBatch(dec)
+			if err != nil {
+				rt.Fail(t, "C05/large/evaluate", "EvaluateBatch on %d requests failed: %v", len(reqs), err)
+				return
+			}
+			resps, err := batched.UnmarshalBatchedTokenResponses(respEnc)
+			if err != nil || len(resps) != len(items) {
+				rt.Fail(t, "C05/large/response-decode", "response list of a %d-request batch (%d bytes): %v, %d entries", len(items), len(respEnc), err, len(resps))
+				return
+			}
+			for i, x := range items {
+				if (len(resps[i]) > 0) != (x.sess != nil) {
+					rt.Fail(t, "C05/large/presence", "entry %d of %d present=%v, expected %v", i, len(items), len(resps[i]) > 0, x.sess != nil)
+					return
+				}
+				if x.sess == nil {
+					continue
+				}
+				toks, err := x.sess.Finalize(resps[i])
+				if err != nil || x.sess.CheckTokens(toks) != nil {
+					rt.Fail(t, "C05/large/finalize", "entry %d of a %d-request batch does not finalize to a valid token: %v", i, len(items), err)
+					return
+				}
+			}
+			s.Sample(func() any {
+				return map[string]any{"type1": sz.n1, "type2": sz.n2, "request_bytes": len(enc), "response_bytes": len(respEnc)}
+			})
+		}
 	})
 }
